@@ -28,6 +28,9 @@ def run(ctx, crate):
     # the guard establishes char_width != 0 for the cached value; the cache itself must describe the installed table
     from .c13 import rule_char_width_coherent
     rule_char_width_coherent(ctx, crate)
+    # "every terminal width": the row arithmetic audited above presupposes finite row counts, i.e. no division by a zero width
+    from ..draw_rules import rule_rows_finite
+    rule_rows_finite(ctx, crate)
 
 
 def requirements_from(edges):
